@@ -16,7 +16,13 @@ import (
 	"verif/harness/tlc"
 )
 
-const evidencePath = "/verif/evidence/C05.json"
+var evidencePath = "/verif/evidence/C05.json"
+
+func init() {
+	if p := os.Getenv("VERIF_PRIMEV_EVIDENCE"); p != "" { // development aid: merge into a copy
+		evidencePath = p
+	}
+}
 
 func seededUnis(seed int64, salt int64, n int) [][]int {
 	rng := rand.New(rand.NewSource(seed*104729 + salt))
@@ -40,8 +46,8 @@ func plans(c *core.Ctx) []Plan {
 		return []Plan{
 			// every order of deliveries / faults / eon / chain steps / syncs inside each designed universe, one
 			// history per distinct TRANSITION
-			{Name: "h-designed", Kind: "h", K: 3, T: 2, Designed: seq(1, 25), MaxRep: 2, MaxFault: 1, MaxSync: 3, Edge: true, Sample: 420, Workers: 4, TimeoutS: 400},
-			{Name: "h-seeded", Kind: "h", K: 3, T: 2, Seeded: seededUnis(c.Seed, 1, 10), MaxRep: 1, MaxFault: 1, MaxSync: 0, Edge: true, Sample: 120, Workers: 3, TimeoutS: 300},
+			{Name: "h-designed", Kind: "h", K: 3, T: 2, Designed: seq(1, 25), MaxRep: 2, MaxFault: 1, MaxSync: 3, Edge: true, Sample: 700, Workers: 4, TimeoutS: 400},
+			{Name: "h-seeded", Kind: "h", K: 3, T: 2, Seeded: seededUnis(c.Seed, 1, 8), MaxRep: 2, MaxFault: 1, MaxSync: 0, Edge: true, Sample: 160, Workers: 3, TimeoutS: 300},
 			// one commitment at all / two of three keypers, every interleaving with the gossip packets, one loss per receiver
 			{Name: "n-one", Kind: "n", K: 3, T: 2, Designed: []int{1, 2, 5}, MaxLoss: 1, ProcNet: 99, Sample: 60, Workers: 4, TimeoutS: 400},
 			// two / three commitments in every order at every keyper; a keyper handles a commitment when the network is drained
@@ -58,10 +64,12 @@ func plans(c *core.Ctx) []Plan {
 		{Name: "h-seeded", Kind: "h", K: 3, T: 2, Seeded: seededUnis(c.Seed, 1, 60), MaxRep: 2, MaxFault: 1, MaxSync: 0, Edge: true, Sample: 1500, Workers: 6, TimeoutS: 1500},
 		{Name: "h-sorted-alt", Kind: "h", K: 3, T: 2, SortMode: "sorted", Designed: []int{1, 18}, MaxRep: 2, Edge: true, SpecOnly: true, Workers: 4, TimeoutS: 900},
 		{Name: "n-one", Kind: "n", K: 3, T: 2, Designed: []int{1, 2, 5, 9}, MaxLoss: 1, ProcNet: 99, Sample: 300, Workers: 6, TimeoutS: 1500},
-		{Name: "n-one-dup", Kind: "n", K: 3, T: 2, Designed: []int{9}, MaxLoss: 1, MaxDup: 1, MaxCDup: 1, ProcNet: 99, Sample: 250, Workers: 6, TimeoutS: 2400},
+		{Name: "n-one-dup", Kind: "n", K: 3, T: 2, Designed: []int{9}, MaxLoss: 1, MaxDup: 1, MaxCDup: 0, ProcNet: 99, Sample: 250, Workers: 6, TimeoutS: 2400},
 		{Name: "n-two-p0", Kind: "n", K: 3, T: 2, Designed: []int{3, 4, 6, 7, 8}, MaxLoss: 1, MaxCDup: 1, ProcNet: 0, Sample: 400, Workers: 6, TimeoutS: 1500},
 		{Name: "n-two-p1", Kind: "n", K: 3, T: 2, Designed: []int{3, 4, 7}, MaxLoss: 1, ProcNet: 1, Sample: 400, Workers: 6, TimeoutS: 2400},
-		{Name: "n-k2", Kind: "n", K: 2, T: 2, Designed: []int{3, 4, 6, 7, 8}, MaxDup: 1, MaxCDup: 1, ProcNet: 99, Sample: 400, Workers: 6, TimeoutS: 1500},
+		{Name: "n-two-p2", Kind: "n", K: 3, T: 2, Designed: []int{3, 7}, MaxLoss: 1, ProcNet: 2, Sample: 400, Workers: 6, TimeoutS: 2400},
+		{Name: "n-two-full", Kind: "n", K: 3, T: 2, Designed: []int{4}, MaxLoss: 1, ProcNet: 99, Sample: 400, Workers: 6, TimeoutS: 2400},
+		{Name: "n-k2", Kind: "n", K: 2, T: 2, Designed: []int{3, 4, 6, 8}, MaxDup: 1, MaxCDup: 1, ProcNet: 99, Sample: 400, Workers: 6, TimeoutS: 1500},
 		{Name: "live", Kind: "live", K: 3, T: 2, Designed: []int{9, 1, 3, 6, 7}, MaxLoss: 1, ProcNet: 0, Workers: 4, TimeoutS: 1500},
 		{Name: "live-full", Kind: "live", K: 3, T: 2, Designed: []int{9, 5}, MaxLoss: 1, ProcNet: 99, Workers: 4, TimeoutS: 1500},
 	}
@@ -237,6 +245,15 @@ func runPlan(c *core.Ctx, p Plan, replayWorkers int) (*outcome, error) {
 		}(r)
 	}
 	wg.Wait()
+	// a hang is believed only if it happens again, alone on the machine, with three times the watchdog
+	for i, r := range out.runs {
+		if r.Err == nil && r.Hung() {
+			r2 := &Run{Plan: r.Plan, UI: r.UI, U: r.U, Beh: r.Beh, Lists: r.Lists, Seed: r.Seed, No: r.No, Slow: true}
+			r2.Execute()
+			c.Logf("primev plan %s run %d reported a hang; repeated with longer watchdogs: hang again = %v", p.Name, r.No, r2.Err == nil && r2.Hung())
+			out.runs[i] = r2
+		}
+	}
 	out.replayS = time.Since(t0).Seconds()
 	for _, r := range out.runs {
 		if r.Err != nil {
@@ -396,6 +413,16 @@ func Check(c *core.Ctx) int {
 	}
 	c.Logf("primev preflight ok")
 	ps := plans(c)
+	if sm := os.Getenv("VERIF_PRIMEV_SORTMODE"); sm != "" { // the named alternative of the spec (after docs/fixes-proposed/PRIMEV-1.diff)
+		for i := range ps {
+			ps[i].SortMode = sm
+		}
+	}
+	if rm := os.Getenv("VERIF_PRIMEV_REGMODE"); rm != "" { // the named alternative of the spec (after docs/fixes-proposed/PRIMEV-2.diff)
+		for i := range ps {
+			ps[i].RegMode = rm
+		}
+	}
 	if only := os.Getenv("VERIF_PRIMEV_ONLY"); only != "" { // development aid: substring of the plan name
 		var keep []Plan
 		for _, p := range ps {
@@ -581,6 +608,21 @@ func mergeEvidence(c *core.Ctx, ps []Plan, outs []*outcome, violations int, obs,
 	return os.Rename(tmp, evidencePath)
 }
 
+func bidderOf(c Cmt) int {
+	if c.Dig != "ok" {
+		return 0
+	}
+	switch c.Bsig {
+	case "ok", "v27":
+		return 1
+	case "other":
+		return 2
+	case "wdig":
+		return 9
+	}
+	return 0
+}
+
 // Replay re-executes the behaviour of a replay file and validates it again.
 func Replay(c *core.Ctx) int {
 	b, err := os.ReadFile(c.Replay)
@@ -612,6 +654,21 @@ func Replay(c *core.Ctx) int {
 	fmt.Printf("universe %d (%s): %s\nviol=%v info=%v drift=%v\n", rf.UI, rf.U.Name, rf.Beh.text(), vr.Viol, vr.Info, vr.Drift)
 	for _, l := range r.Lines {
 		fmt.Println("  " + brief(l.J))
+	}
+	// the concrete inputs behind the abstract commitment records of this run
+	if w, err := worldFor(rf.Plan.K, rf.Plan.T, rf.Seed%3); err == nil {
+		for k, cm := range rf.U.Cs {
+			m := w.Concretise(cm)
+			mb, _ := json.Marshal(m)
+			fmt.Printf("commitment %d = %s\n", k+1, mb)
+			if addr, ok := w.BidAddr[bidderOf(cm)]; ok {
+				for _, p := range cm.Pfx {
+					if n, ok := pfxID[p]; ok {
+						fmt.Printf("  identity %d = keccak(prefix %s || bidder %s) = %x\n", 10*n+bidderOf(cm), p, addr.Hex(), w.IDBytes[10*n+bidderOf(cm)])
+					}
+				}
+			}
+		}
 	}
 	isC05 := strings.HasPrefix(rf.Monitor, "C05_")
 	for _, v := range append(append([][]any{}, vr.Viol...), vr.Info...) {
